@@ -415,6 +415,29 @@ func init() {
 						return
 					}
 				}
+				// thorough: all triples over target x cookie x authz (the three fields that select the
+				// session source and the handler)
+				if !c.Quick() {
+					ft, fc, fa := 0, 2, 3
+					for at := 1; at < len(fields[ft].Alts); at++ {
+						for ac := 1; ac < len(fields[fc].Alts); ac++ {
+							for aa := 1; aa < len(fields[fa].Alts); aa++ {
+								n++
+								if !c.Mine(n) {
+									continue
+								}
+								for k := range choice {
+									choice[k] = 0
+								}
+								choice[ft], choice[fc], choice[fa] = at, ac, aa
+								c19Run(c, cfg, px, fields, choice, up)
+							}
+						}
+						if c.Expired() {
+							return
+						}
+					}
+				}
 				if px.Redis != nil {
 					px.Redis.Close()
 				}
